@@ -2,6 +2,7 @@
 # usage: mkworktree.sh <dir>  -- scratch worktree of /repo HEAD with a warm target dir
 set -e
 d="$1"
+case "$d" in /tmp/*) ;; *) echo "mkworktree.sh: give an absolute path under /tmp" >&2; exit 2;; esac
 git -C /repo worktree add --detach "$d" HEAD >/dev/null 2>&1
 cp -a /repo/target "$d/target" 2>/dev/null || true
 echo "$d"
